@@ -259,7 +259,8 @@ Qed.
 Lemma coh_put s k cid ct me tg cl c :
   coherent s -> coherent (fst (step s (OPut k cid ct me tg cl c))).
 Proof.
-  intros C. cbn [step]. destruct (bucket_ok (fst k)); [|exact C].
+  intros C. cbn [step]. destruct (bucket_ok (fst k));
+    [|destruct (bucket_missing (fst k)); [apply coh_invalidate; [exact C | apply frame_refl] | exact C]].
   destruct (inner_put (s_in s) k cid ct me tg cl c) as [i e] eqn:P.
   destruct (put_frame _ _ _ _ _ _ _ _ _ _ P) as (F & Herr & Hok).
   destruct e; try (apply coh_invalidate; [exact C | exact F]).
@@ -310,11 +311,14 @@ Lemma coh_step s o : safe_op o = true -> coherent s -> coherent (fst (step s o))
 Proof.
   intros S C. destruct o; try discriminate S.
   - (* put *) apply coh_put; exact C.
+  - (* rejected put *) cbn [step]. destruct (bucket_ok (fst k) || bucket_missing (fst k)); [|exact C].
+    apply coh_invalidate; [exact C | apply frame_refl].
   - (* append *) cbn [step]. destruct (bucket_ok (fst k)); [|exact C].
     destruct (inner_append (s_in s) k cid off) as [i e] eqn:P.
     destruct (append_frame _ _ _ _ _ _ P) as (F & Hn).
     destruct e; try (rewrite (Hn ltac:(discriminate)), with_inner_id; exact C).
     apply coh_invalidate; assumption.
+  - (* rejected append *) cbn [step]. destruct (bucket_ok (fst k)); exact C.
   - (* copy *) cbn [step]. destruct (bucket_ok (fst src) && bucket_ok (fst dst)); [|exact C].
     destruct (inner_copy (s_in s) src dst rm ct meta rt tags cls) as [i e] eqn:P.
     apply coh_invalidate; [exact C | eapply copy_frame; exact P].
@@ -352,6 +356,7 @@ Proof.
   - (* get *) apply coh_get; exact C.
   - (* head by version id *) cbn [step]. destruct (bucket_ok (fst k)); exact C.
   - (* get by version id *) cbn [step]. destruct (bucket_ok (fst k)); exact C.
+  - (* ranged get *) cbn [step]. destruct (bucket_ok (fst k)); exact C.
   - exact C.
 Qed.
 
@@ -441,7 +446,8 @@ Lemma cons_step s o : no_handles o = true -> consistent s ->
   consistent (fst (step s o)) /\ body_ok (snd (step s o)).
 Proof.
   intros S C. destruct o; try discriminate S; cbn [step].
-  - (* put *) destruct (bucket_ok (fst k)); [|split; [exact C | exact I]].
+  - (* put *) destruct (bucket_ok (fst k));
+      [|destruct (bucket_missing (fst k)); (split; [first [apply cons_invalidate; exact C | exact C] | exact I])].
     destruct (inner_put (s_in s) k cid ct meta tags cls c) as [i e] eqn:P.
     destruct (put_frame _ _ _ _ _ _ _ _ _ _ P) as (F & Herr & Hok).
     destruct e; try (split; [apply cons_invalidate; exact C | exact I]).
@@ -455,8 +461,10 @@ Proof.
     + rewrite get_set_other by exact E. destruct (len_of cid <=? max_cached).
       * rewrite get_set_other in G by exact E. apply HB; exact G.
       * rewrite get_del_other in G by exact E. apply HB; exact G.
+  - (* rejected put *) destruct (bucket_ok (fst k) || bucket_missing (fst k)); (split; [first [apply cons_invalidate; exact C | exact C] | exact I]).
   - destruct (bucket_ok (fst k)); [|split; [exact C | exact I]].
     destruct (inner_append (s_in s) k cid off) as [i e]. destruct e; (split; [first [apply cons_invalidate; exact C | exact C] | exact I]).
+  - (* rejected append *) destruct (bucket_ok (fst k)); (split; [exact C | exact I]).
   - destruct (bucket_ok (fst src) && bucket_ok (fst dst)); [|split; [exact C | exact I]].
     destruct (inner_copy (s_in s) src dst rm ct meta rt tags cls) as [i e]. split; [apply cons_invalidate; exact C | exact I].
   - destruct (bucket_ok (fst k)); [|split; [exact C | exact I]].
@@ -514,6 +522,8 @@ Proof.
     split; [exact C|]. cbn [snd]. destruct (inner_head_v (s_in s) k vr im inm); exact I.
   - (* get by version id: answered by the inner storage *) destruct (bucket_ok (fst k)); [|split; [exact C | exact I]].
     split; [exact C|]. cbn [snd]. unfold inner_get_v. destruct (inner_head_v (s_in s) k vr im inm); [reflexivity | exact I].
+  - (* ranged get *) destruct (bucket_ok (fst k)); [|split; [exact C | exact I]].
+    split; [exact C|]. cbn [snd]. destruct (inner_get_range (s_in s) k vr rs re); exact I.
   - split; [exact C | exact I].
 Qed.
 
@@ -532,3 +542,60 @@ Qed.
 Theorem body_matches_partial : forall ops,
   forallb no_handles ops = true -> Forall body_ok (snd (run st0 ops)).
 Proof. intros ops S. apply cons_run; [exact S | apply cons_st0]. Qed.
+
+(* ---------- rejected writes ---------- *)
+Definition is_write (o : op) : bool :=
+  match o with
+  | OPut _ _ _ _ _ _ _ | OPutBad _ _ _ | OAppend _ _ _ | OAppendBad _ _ _
+  | OCopy _ _ _ _ _ _ _ _ | OMComplete _ => true
+  | _ => false
+  end.
+
+Lemma copy_fail s src dst rm ct me rt tg cl i e :
+  inner_copy s src dst rm ct me rt tg cl = (i, e) -> e <> Ok -> i = s.
+Proof. unfold inner_copy. destruct (inner_lookup s src); intros E; inversion E; congruence. Qed.
+
+Theorem rejected_write_store_unchanged s o e :
+  is_write o = true -> snd (step s o) = RStatus e -> e <> Ok -> s_in (fst (step s o)) = s_in s.
+Proof.
+  intros W R Hne. destruct o; try discriminate W; cbn [step] in *.
+  - destruct (bucket_ok (fst k)); [|destruct (bucket_missing (fst k)); reflexivity].
+    destruct (inner_put (s_in s) k cid ct meta tags cls c) as [i e'] eqn:P.
+    destruct (put_frame _ _ _ _ _ _ _ _ _ _ P) as (_ & Herr & _).
+    destruct e'; cbn [fst snd] in *; try (inversion R; subst; cbn; apply Herr; discriminate).
+    inversion R; congruence.
+  - destruct (bucket_ok (fst k) || bucket_missing (fst k)); reflexivity.
+  - destruct (bucket_ok (fst k)); [|reflexivity].
+    destruct (inner_append (s_in s) k cid off) as [i e'] eqn:P.
+    destruct (append_frame _ _ _ _ _ _ P) as (_ & Herr).
+    destruct e'; cbn [fst snd] in *; try (cbn; apply Herr; discriminate).
+    inversion R; congruence.
+  - destruct (bucket_ok (fst k)); reflexivity.
+  - destruct (bucket_ok (fst src) && bucket_ok (fst dst)); [|reflexivity].
+    destruct (inner_copy (s_in s) src dst rm ct meta rt tags cls) as [i e'] eqn:P.
+    cbn [fst snd] in *. inversion R; subst. cbn. eapply copy_fail; eassumption.
+  - destruct (inner_mcomplete (s_in s) u) as [[i r] ok] eqn:P.
+    destruct (mcomplete_frame _ _ _ _ _ P) as (_ & Hn).
+    destruct r as [e'|]; [|reflexivity].
+    destruct e'; try (destruct ok; cbn; apply Hn; discriminate).
+    destruct ok; cbn [fst snd] in *; inversion R; congruence.
+Qed.
+
+Lemma write_in_scope o : is_write o = true -> safe_op o = true.
+Proof. destruct o; cbn; congruence. Qed.
+
+Theorem rejected_write_shows_stored ops o e :
+  forallb safe_op ops = true -> is_write o = true ->
+  let s := fst (run st0 ops) in
+  snd (step s o) = RStatus e -> e <> Ok ->
+  let s' := fst (step s o) in
+  forall k im inm, bucket_ok (fst k) = true ->
+  snd (step s' (OHead k im inm)) = head_res (inner_head (s_in s) k im inm) /\
+  snd (step s' (OGet k im inm)) = get_res (inner_get (s_in s) k im inm).
+Proof.
+  intros S W s R Hne s' k im inm Bk.
+  assert (coherent s) as C by (apply coh_run; [exact S | apply coh_st0]).
+  assert (coherent s') as C' by (apply coh_step; [apply write_in_scope; exact W | exact C]).
+  rewrite <- (rejected_write_store_unchanged s o e W R Hne).
+  apply coherent_transparent; assumption.
+Qed.
